@@ -523,6 +523,60 @@ def disconnect_arm(report, db, cg, M, fi, arms):
         report.violation(R, 'disc:message', fi.path, st, fi.qualname,
                          'no LoginDisconnect carrying the server\'s message '
                          'is raised')
+    # what reaches the string consumers (re.match, %-interpolation) is the
+    # chat object's 'text' member or the raw data -- never the parsed JSON
+    # value itself, which may be a list / number / null for legal replies
+    pk = fi.params[1]
+    mvars = set()
+    for s in body:
+        for x in ast.walk(s):
+            if isinstance(x, ast.Call) and ast.unparse(x.func) in (
+                    're.match', 're.fullmatch', 're.search') and \
+                    len(x.args) > 1 and isinstance(x.args[1], ast.Name):
+                mvars.add(x.args[1].id)
+    parsed = set()
+    for s in body:
+        for x in ast.walk(s):
+            if isinstance(x, ast.Assign) and isinstance(x.targets[0],
+                                                        ast.Name) and \
+                    isinstance(x.value, ast.Call) and \
+                    ast.unparse(x.value.func) == 'json.loads':
+                parsed.add(x.targets[0].id)
+
+    def source_ok(e):
+        if isinstance(e, ast.IfExp):
+            return source_ok(e.body) and source_ok(e.orelse)
+        t = ast.unparse(e)
+        if t == '%s.json_data' % pk:
+            return True
+        if isinstance(e, ast.Call) and ast.unparse(e.func) == 'str':
+            return True
+        if isinstance(e, ast.Subscript) and isinstance(e.slice,
+                                                       ast.Constant) and \
+                e.slice.value == 'text':
+            b = e.value
+            return (isinstance(b, ast.Call) and ast.unparse(b.func) ==
+                    'json.loads') or (isinstance(b, ast.Name)
+                                      and b.id in parsed)
+        return False
+    bad_src = []
+    for s in body:
+        for x in ast.walk(s):
+            if isinstance(x, ast.Assign) and isinstance(
+                    x.targets[0], ast.Name) and x.targets[0].id in mvars \
+                    and not source_ok(x.value):
+                bad_src.append(x)
+    if mvars and not bad_src:
+        report.ok(R, 'message text comes from the "text" member or the raw '
+                  'data')
+    for x in bad_src:
+        report.violation(R, 'disc:message-source', fi.path, x, fi.qualname,
+                         'the text matched and reported is taken from %s: a '
+                         'reason that is valid JSON but not a chat object '
+                         'with a string "text" (an array of components, '
+                         'null, a number) reaches re.match and fails with '
+                         'TypeError instead of a LoginDisconnect'
+                         % ast.unparse(x.value))
     # the two "Outdated" forms
     pats = [x for s in body for x in ast.walk(s) if isinstance(x, ast.Call)
             and ast.unparse(x.func) in ('re.match', 're.fullmatch',
